@@ -526,9 +526,9 @@ def main(argv):
                         if kinds is not None and not any(v["kind"].startswith(k) for k in kinds):
                             continue
                         violations.append(dict(v, harness=h["cmd"], bin=binpath))
-                elif v["v"] == "mismatch":
+                elif v0["v"] == "mismatch":
                     problems.append(("mismatch", "model and implementation disagree (harness %s, step %d, %s)" % (
-                        h["cmd"], v["step"], v["what"]), dict(v, harness=h["cmd"], bin=binpath)))
+                        h["cmd"], v0["step"], v0["what"]), dict(v0, harness=h["cmd"], bin=binpath)))
 
     # ---- 4. decide ----------------------------------------------------------
     exit_code = 0
